@@ -72,6 +72,12 @@ pub fn digits(rng: &mut Rng, len: usize, pat: Pat) -> Vec<u64> {
     d
 }
 
+/// like `digits`, choosing the pattern from `pats`
+pub fn digits_p(rng: &mut Rng, len: usize, pats: &[Pat]) -> Vec<u64> {
+    let p = *rng.pick(pats);
+    digits(rng, len, p)
+}
+
 pub fn le_bytes(d: &[u64]) -> Vec<u8> {
     let mut out = Vec::with_capacity(d.len() * 8);
     for w in d {
